@@ -122,6 +122,9 @@ class Cadence(collections.abc.MutableSequence):
         if isinstance(i, slice):
             return self.__class__(self.frames[i])
         elif isinstance(i, (list, np.ndarray, tuple)):
+            if isinstance(i, tuple):
+                # numpy would read a tuple as one multi-dimensional index
+                i = list(i)
             return self.__class__(np.array(self.frames)[i])
         else:
             return self.frames[i]
@@ -254,14 +257,19 @@ class OrderedCadence(Cadence):
         self._check(v)
         if i < 0:
             i = len(self) + i
-        if "order_label" not in v.metadata:
-            v.add_metadata({"order_label": self.order[i]})
+        label = self.order[i]
+        # Store first: an out-of-range position raises before the frame is labelled
         self.frames[i] = v
+        if "order_label" not in v.metadata:
+            v.add_metadata({"order_label": label})
 
     def insert(self, i, v):
         self._check(v)
+        # list.insert clamps the position into [0, len]; label the frame
+        # with the position it actually lands on
         if i < 0:
-            i = len(self) + i
+            i = max(len(self) + i, 0)
+        i = min(i, len(self))
         if "order_label" not in v.metadata:
             v.add_metadata({"order_label": self.order[i]})
         self.frames.insert(i, v)
